@@ -305,11 +305,22 @@ def _sums_exponents(m, fn, res, maps, key_pred, what):
 def _derives_from(res, expr, acc):
     """Does expr read the dictionary filled by the accumulation (same defining statement of the local)?"""
     want = {id(st) for st, _ in res.origins(acc["dict"])}
-    for x in ast.walk(expr):
-        if isinstance(x, ast.Name) and isinstance(x.ctx, ast.Load):
-            if {id(st) for st, _ in res.origins(x)} & want:
-                return True
-    return False
+
+    def rec(e, depth):
+        for x in ast.walk(e):
+            if isinstance(x, ast.Name) and isinstance(x.ctx, ast.Load):
+                sts = [st for st, _ in res.origins(x)]
+                if {id(st) for st in sts} & want:
+                    return True
+                if depth < 3:
+                    # a local computed from the dictionary (`pairs = list(d.items())`): look into what it was computed from
+                    for st in sts:
+                        v = getattr(st, "value", None)
+                        if st is not None and isinstance(st, (ast.Assign, ast.AnnAssign)) and v is not None and rec(v, depth + 1):
+                            return True
+        return False
+
+    return rec(expr, 0)
 
 
 def r5_sources(rep, ctx):
